@@ -551,6 +551,14 @@ func (r *Runner) Exec(e Ev) {
 		}
 		e["pts"], e["rks"] = pts, rks
 		r.T.Emit(e)
+	case "rscan":
+		pts, rks, err := r.rscan(e.I("src"))
+		if err != nil {
+			r.fail(errors.Wrapf(err, "rscan src=%d", e.I("src")))
+			return
+		}
+		e["pts"], e["rks"] = pts, rks
+		r.T.Emit(e)
 	case "snap":
 		r.H[e.I("h")] = &handle{typ: "snap", snap: r.DB.NewSnapshot()}
 		r.T.Emit(e)
